@@ -523,7 +523,7 @@ def apply_block(sc: dict, sim, N, info, timestep_fn):
 # ------------------------------------------------------------------------------------------ red repertoire
 OPS = ["ping", "ping_scan", "port_scan_tcp", "port_scan_udp", "port_scan_arp_port", "db_connect", "db_query", "db_query_new",
        "ftp_send", "data_manip", "ransomware", "dos", "term_login", "term_command", "c2_establish", "c2_terminal",
-       "c2_ransomware", "c2_exfil", "web_get", "c_ping", "tick"]
+       "c2_ransomware", "c2_exfil", "web_get", "c_ping", "ping_gw", "tick"]
 
 
 def do_op(op: str, N, info) -> str:
@@ -538,6 +538,10 @@ def do_op(op: str, N, info) -> str:
         return str(a.ping(b_ip, pings=2))
     if op == "c_ping":
         return str(c.ping(b_ip, pings=1))
+    if op == "ping_gw":
+        # traffic addressed to the blocking element ITSELF (its own software answers): it must not make the element let anything through
+        gw = a.config.default_gateway
+        return "no-gw" if not gw else str(a.ping(gw, pings=1))
     if op == "ping_scan":
         from ipaddress import IPv4Network
         return str(len(sw["nmap"].ping_scan(target_ip_address=IPv4Network(info["b_net"]), show=False)))
@@ -862,6 +866,26 @@ def gen_scenario(rng: Rng, max_ops: int = 8) -> dict:
     return sc
 
 
+def directed_scenarios(rng: Rng) -> List[dict]:
+    """A small fixed family run every time: traffic addressed to the BLOCKING ELEMENT ITSELF (its own software answers: ICMP, ARP,
+    the session manager between a firewall's two stages) followed by attacks on B — the situation in which software on the
+    blocking element could undo the block (re-enable a boundary interface, relay) — for each way an element blocks."""
+    out = []
+    tail = ["ping", "data_manip", "db_query_new", "port_scan_tcp", "c_ping"]
+    for fam, block, extra in (("routed", "router_port_b_disabled", {"routers": 1, "at": "R1"}),
+                              ("routed", "router_port_b_disabled", {"routers": 2, "at": "R1"}),
+                              ("routed", "router_deny_anyany", {"routers": 1, "at": "R1"}),
+                              ("routed", "router_deny_src_range", {"routers": 1, "at": "R1"}),
+                              ("firewall", "fw_port_b_disabled", {"a_zone": "ext", "b_zone": "int"}),
+                              ("firewall", "fw_second_stage_deny", {"a_zone": "dmz", "b_zone": "int"}),
+                              ("firewall", "fw_first_stage_deny", {"a_zone": "int", "b_zone": "ext"})):
+        sc = {"family": fam, "block": block, "rule_pos": rng.choice([0, 1, 3]), "pre_ops": [rng.choice(["ping", "db_connect", "tick"])],
+              "post_ops": ["ping_gw"] + [rng.choice(tail) for _ in range(2)] + ["ping_gw", rng.choice(tail)]}
+        sc.update(extra)
+        out.append(sc)
+    return out
+
+
 def sig_of(sc: dict, v: dict) -> dict:
     s = {"kind": v["kind"], "family": sc["family"], "block": sc["block"]}
     if v["kind"] == "protected-state-changed":
@@ -874,6 +898,8 @@ def run(ctx: Ctx):
     for f in sorted((VERIF / "corpus" / "C06").glob("net-*.json")):
         scenarios.append(("corpus:" + f.name, json.loads(f.read_text())["scenario"]))
     rng = ctx.rng.fork("net")
+    for k, sc in enumerate(directed_scenarios(ctx.rng.fork("net-directed"))):
+        scenarios.append((f"directed:{k}", sc))
     for k in range(ctx.scale(45, 900)):
         scenarios.append((f"gen:{k}", gen_scenario(rng, max_ops=ctx.scale(6, 10))))
     clean = 0
@@ -912,6 +938,8 @@ def run(ctx: Ctx):
             ctx.count("net:theorem:C06_certified_unchanged_confined:software-set-of-the-ifaceDown-element-confined")
         elif chunk[-1] == "certifiedN-fw2":
             ctx.count("net:theorem:C06_certifiedN_unchanged:FwSecondOK")
+        elif res["closure"]["bad"]:
+            ctx.count("net:theorem:none(oracle only: the closure hypothesis of the class theorem does not hold in this run)")
         else:
             ctx.count("net:theorem:C06_certifiedC_unchanged:closure+software-hypotheses")
         if sc["block"] in CERTIFIABLE and not ok:
@@ -929,12 +957,26 @@ def run(ctx: Ctx):
                                f"{chunk_ctl[-1]})")
             ctx.count("net:unblocked-network-rejected" if not acc else "net:unblocked-network-ACCEPTED")
         ctx.count("net:class-closure-frames-checked", res["closure"]["ok"] + len(res["closure"]["bad"]))
+        closure_proved = chunk[-1].startswith("certifiedN")
         for k, v in res["model_ok"].items():
             ctx.count(f"net:model-validated:{k}-frames", v)
         if res["model_bad"]:
             model_bad_all.append(f"{name} {sc['family']}/{sc['block']}: {res['model_bad'][0]}")
+            if len(model_bad_all) <= 3:
+                what = res["model_bad"][0]
+                ctx.violation({"kind": "attacker-side-model-vs-impl", "rig": "net", "element": what.split(":")[1].strip().split(" ")[0]},
+                              f"{sc['family']}/{sc['block']}: the implementation leaves the model of Props/C06Net.lean: {what}",
+                              {"rig": "net", "scenario": sc, "model_bad": res["model_bad"], "from": name})
         if res["closure"]["bad"]:
-            closure_bad.append(f"{name} {sc['family']}/{sc['block']}: {res['closure']['bad'][0]}")
+            if closure_proved:
+                # the closure is PROVED for this network (hosts, switches, blocking router's ARP): a frame outside the class on the
+                # wire contradicts the model
+                closure_bad.append(f"{name} {sc['family']}/{sc['block']}: {res['closure']['bad'][0]}")
+            else:
+                # the closure is only a hypothesis here (destination-/protocol-specific class, or an interior router whose own
+                # software answers): it does not hold for this run, so the class theorem does not cover the scenario (oracle only)
+                ctx.count(f"net:closure-hypothesis-does-not-hold:{sc['block']}")
+                res["closure_fails"] = True
     ctx.oblige("rig:R-net the proved cut certificate accepts the real post-block network", "correspondence", not cert_bad,
                "; ".join(cert_bad[:5]))
     ctx.oblige("rig:R-net the proved class-aware certificate (certifyC) accepts the real post-block network of EVERY scenario",
@@ -943,8 +985,10 @@ def run(ctx: Ctx):
                "expected on the real post-block network of every scenario", "correspondence", not certn_bad, "; ".join(certn_bad[:5]))
     ctx.oblige("rig:R-net all three certificates reject the same network without the block", "correspondence", not ctl_bad,
                "; ".join(ctl_bad[:5]))
-    ctx.oblige("rig:R-net every frame put on a wire by an attacker-side node after the block is in the scenario's frame class "
-               "(closure hypothesis of C06_certifiedC_unchanged)", "correspondence", not closure_bad, "; ".join(closure_bad[:5]))
+    ctx.oblige("rig:R-net where the closure is PROVED (certifyN accepts: hosts, switches, blocking router), every frame put on a wire "
+               "by an attacker-side node after the block is in the scenario's frame class; elsewhere the closure hypothesis of "
+               "C06_certifiedC_unchanged is measured and the scenario counted oracle-only when it fails", "correspondence",
+               not closure_bad, "; ".join(closure_bad[:5]))
     ctx.oblige("rig:R-net the attacker-side models of C06Net hold on every transmitted frame (a switch sends the unchanged frame it "
                "received; a frame a host creates carries the outbound interface's own MAC and address; ARP requests are broadcasts "
                "with the emitting interface as sender, ARP replies to a router interface's MAC are for its address)", "correspondence",
